@@ -255,6 +255,60 @@ inline Diff diff(const DbSnap& a, const DbSnap& b)
   return d;
 }
 
+
+// ------------------------------------------------------------------------------------------------
+// Full structured difference (every extra column, every locator change): what the harness classifies into
+// root-cause classes. Same matching by UID as diff().
+// ------------------------------------------------------------------------------------------------
+struct LocChange
+{
+  std::string name;
+  int fromType, fromIdx, toType, toIdx;
+};
+struct DiffFull
+{
+  std::string presence, nech, grid, order, names, values, roleTable, roleTableLoc; // first witness, "" = no difference
+  bool ndimShrunk = false;
+  std::vector<std::string> missing;
+  std::vector<const ColSnap*> extra; // columns of `b` whose UID is not in `a`
+  std::vector<LocChange> loc;        // pre-existing columns whose (type, rank) changed
+  bool empty() const
+  {
+    return presence.empty() && nech.empty() && grid.empty() && order.empty() && names.empty() && values.empty() &&
+           roleTable.empty() && missing.empty() && extra.empty() && loc.empty();
+  }
+};
+
+inline DiffFull diffFull(const DbSnap& a, const DbSnap& b)
+{
+  DiffFull f;
+  Diff d = diff(a, b);
+  for (auto& it : d)
+  {
+    if (it.what == "db-presence") f.presence = it.detail;
+    if (it.what == "nech") f.nech = it.detail;
+    if (it.what == "grid") f.grid = it.detail;
+    if (it.what == "column-order") f.order = it.detail;
+    if (it.what == "names") f.names = it.detail;
+    if (it.what == "values") f.values = it.detail;
+    if (it.what == "role-table") { f.roleTable = it.detail; f.roleTableLoc = it.loc; }
+  }
+  if (!a.valid || !b.valid) return f;
+  f.ndimShrunk = b.ndim < a.ndim;
+  std::set<int> ua = a.uids();
+  for (auto& c : b.cols)
+    if (!ua.count(c.uid)) f.extra.push_back(&c);
+  for (auto& ca : a.cols)
+  {
+    int j = b.colOfUid(ca.uid);
+    if (j < 0) { f.missing.push_back(ca.name); continue; }
+    const ColSnap& cb = b.cols[j];
+    if (ca.locType != cb.locType || ca.locIdx != cb.locIdx)
+      f.loc.push_back({ca.name, ca.locType, ca.locIdx, cb.locType, cb.locIdx});
+  }
+  return f;
+}
+
 inline int uidSlotsGrew(const DbSnap& a, const DbSnap& b) { return b.uidMax - a.uidMax; }
 
 // internal consistency of ONE snapshot (a Db must stay a consistent table whatever happened): every role-table entry
